@@ -1,10 +1,11 @@
 SPECIFICATION MCSpec
 CONSTANTS
-  MaxLines = 6
+  MaxLines = 5
   MaxLive = 3
-  HeaderRows <- HR2
+  HeaderRows <- HR1
   Lean = FALSE
-  Ext = FALSE
+  Ext = TRUE
+CONSTRAINT Emit
 INVARIANT StagePerLine
 INVARIANT NodePerCell
 INVARIANT SurplusRejects
